@@ -324,7 +324,15 @@ impl BuildCase {
 
     pub fn builder(&self) -> QRBuilder {
         self.run_predecessor();
-        let mut b = QRBuilder::new(self.input.clone());
+        // the documented ways to hand over the input (`Into<Vec<u8>>`): owned bytes, a byte slice, and for well-formed
+        // UTF-8 also String and &str - chosen from the content, all equivalent
+        let as_text = std::str::from_utf8(&self.input).ok();
+        let mut b = match (crate::engine::hash_bytes(&self.input) >> 7) % 4 {
+            1 => QRBuilder::new(&self.input[..]),
+            2 if as_text.is_some() => QRBuilder::new(as_text.unwrap().to_string()),
+            3 if as_text.is_some() => QRBuilder::new(as_text.unwrap()),
+            _ => QRBuilder::new(self.input.clone()),
+        };
         if let Some(w) = &self.warm {
             if let Some(m) = w.mode {
                 b.mode(f_mode(m));
